@@ -169,6 +169,24 @@ ShapeDef(i) ==
                   @@ A("S1", 1, 2) :> Fm(CallN("SUM", <<Rng("", 25, 1, 28, 1)>>))
                   @@ A("S1", 2, 2) :> Fm(Bin("+", CallN("COUNTA", <<Rng("", 2, 1, 37, 1)>>), RelRef(1, 2))) ),
          names |-> <<>>, inputs |-> {A("S1", 25, 1), A("S1", 27, 1)}]
+    [] i = "inplace" ->      \* one constant-only range with a text and an empty entry, read by SUMPRODUCT and by the counting functions
+        [cells |-> ( A("S1", 1, 1) :> Kc(3) @@ A("S1", 1, 2) :> [c |-> "const", v |-> Txt(<<110, 47, 97>>)] @@ A("S1", 1, 3) :> Kc(5)
+                  @@ A("S1", 1, 5) :> Kc(2)
+                  @@ A("S1", 2, 1) :> Fm(CallN("SUMPRODUCT", <<Rng("", 1, 1, 1, 5)>>))
+                  @@ A("S1", 2, 2) :> Fm(CallN("COUNTA", <<Rng("", 1, 1, 1, 5)>>))
+                  @@ A("S1", 2, 3) :> Fm(CallN("COUNT", <<Rng("", 1, 1, 1, 5)>>))
+                  @@ A("S1", 2, 4) :> Fm(CallN("COUNTIF", <<Rng("", 1, 1, 1, 5), StrLit(<<110, 47, 97>>)>>))
+                  @@ A("S1", 2, 5) :> Fm(Bin("+", CallN("SUM", <<Rng("", 1, 1, 1, 5)>>), CallN("SUMPRODUCT", <<Rng("", 1, 1, 1, 5), Rng("", 1, 1, 1, 5)>>))) ),
+         names |-> <<>>, inputs |-> {A("S1", 1, 1)}]
+    [] i = "xirr2" ->        \* cash flows with two internal rates (10% and 20%) next to flows with one (37%): the search has a start point
+        [cells |-> ( A("S1", 1, 1) :> Kc(1)
+                  @@ A("S1", 3, 1) :> Kc(-1000) @@ A("S1", 3, 2) :> Kc(2300) @@ A("S1", 3, 3) :> Kc(-1320)
+                  @@ A("S1", 4, 1) :> Kc(43831) @@ A("S1", 4, 2) :> Kc(44196) @@ A("S1", 4, 3) :> Kc(44561)
+                  @@ A("S1", 5, 1) :> Kc(-1000) @@ A("S1", 5, 2) :> Kc(1370)
+                  @@ A("S1", 2, 1) :> Fm(CallN("XIRR", <<Rng("", 3, 1, 3, 3), Rng("", 4, 1, 4, 3)>>))
+                  @@ A("S1", 2, 2) :> Fm(CallN("XIRR", <<Rng("", 5, 1, 5, 2), Rng("", 4, 1, 4, 2)>>))
+                  @@ A("S1", 2, 3) :> Fm(Bin("+", RelRef(1, 1), N1)) ),
+         names |-> <<>>, inputs |-> {A("S1", 1, 1)}]
     [] i = "cross" ->
         [cells |-> ( A("S1", 1, 1) :> Kc(1) @@ A("S 2", 1, 1) :> Kc(1)
                   @@ A("S 2", 2, 1) :> Fm(Bin("*", RelRef(1, 1), N3))
